@@ -322,11 +322,11 @@ func NewMethodLookupAsNode(loc *position.Location, methodLookup *MethodLookupNod
 }
 
 func (*MethodLookupAsNode) Class() *value.Class {
-	return value.ConstantAsNodeClass
+	return value.MethodLookupAsNodeClass
 }
 
 func (*MethodLookupAsNode) DirectClass() *value.Class {
-	return value.ConstantAsNodeClass
+	return value.MethodLookupAsNodeClass
 }
 
 func (n *MethodLookupAsNode) Inspect() string {
